@@ -2296,6 +2296,70 @@ pub fn directive_soup(rng: &mut Rng) -> String {
     s
 }
 
+/// `c11mini` family: one small statement or declaration inside a minimal frame, with comments at the places where a
+/// line's width is decided by something that cannot move (after `begin`/`then`/`do`/`else`/`of`, after a separator, at
+/// the end of the statement).  Small enough that every wrap column can be tried (full sweep of C11's three clauses).
+pub fn c11_mini(rng: &mut Rng) -> String {
+    fn com(rng: &mut Rng, line_ok: bool) -> String {
+        match rng.range(0, 5) {
+            0 | 1 if line_ok => format!(" // {}\n", rng.pick_str(&["note", "note this", "a much longer remark here", "x"])),
+            2 => format!(" {{{}}} ", rng.pick_str(&["n", "note", "some words"])),
+            _ => " ".to_string(),
+        }
+    }
+    fn name(rng: &mut Rng) -> &'static str {
+        rng.pick_str(&["A", "Foo", "Alpha", "SomeLongerName", "Value1", "B"])
+    }
+    fn cond(rng: &mut Rng) -> String {
+        match rng.range(0, 3) {
+            0 => name(rng).to_string(),
+            1 => format!("{} and {}", name(rng), name(rng)),
+            2 => format!("({} > {}) or {}", name(rng), name(rng), name(rng)),
+            _ => format!("{}({}, {})", name(rng), name(rng), name(rng)),
+        }
+    }
+    fn simple(rng: &mut Rng) -> String {
+        match rng.range(0, 3) {
+            0 => format!("{}", name(rng)),
+            1 => format!("{} := {} + {}", name(rng), name(rng), name(rng)),
+            2 => format!("{}({}, {}, {})", name(rng), name(rng), name(rng), name(rng)),
+            _ => format!("{} := {}({})", name(rng), name(rng), name(rng)),
+        }
+    }
+    fn block(rng: &mut Rng) -> String {
+        let c1 = com(rng, true);
+        let c2 = com(rng, true);
+        format!("begin{}{};{}end", c1, simple(rng), c2)
+    }
+    fn body(rng: &mut Rng) -> String {
+        if rng.chance(2, 3) {
+            block(rng)
+        } else {
+            simple(rng)
+        }
+    }
+    let stmt = match rng.range(0, 11) {
+        0 | 1 => format!("if {} then{}{}", cond(rng), com(rng, true), body(rng)),
+        2 => format!("if {} then{}{}{}else{}{}", cond(rng), com(rng, true), body(rng), com(rng, false), com(rng, true), body(rng)),
+        3 => format!("while {} do{}{}", cond(rng), com(rng, true), body(rng)),
+        4 => format!("for I := {} to {} do{}{}", name(rng), name(rng), com(rng, true), body(rng)),
+        5 => format!("with {} do{}{}", name(rng), com(rng, true), body(rng)),
+        6 => format!("case {} of{}1:{}{};{}2: {};{}end", name(rng), com(rng, true), com(rng, true), body(rng), com(rng, true), simple(rng), com(rng, true)),
+        7 => format!("try{}{};{}except{}on E: Exception do{}{};{}end", com(rng, true), simple(rng), com(rng, true), com(rng, true), com(rng, true), body(rng), com(rng, true)),
+        8 => format!("{}(procedure{}{})", name(rng), com(rng, true), block(rng)),
+        9 => format!("repeat{}{};{}until {}", com(rng, true), simple(rng), com(rng, true), cond(rng)),
+        10 => format!("{} :={}{}", name(rng), com(rng, true), simple(rng)),
+        _ => simple(rng),
+    };
+    let tail = com(rng, true);
+    match rng.range(0, 3) {
+        0 => format!("begin\n{};{}end;\n", stmt, tail),
+        1 => format!("procedure P;\nbegin\n{};{}end;\n", stmt, tail),
+        2 => format!("procedure P({}: Integer;{}{}: string);{}begin\n{};\nend;\n", name(rng), com(rng, true), name(rng), com(rng, true), stmt),
+        _ => format!("begin\n  begin\n{};{}  end;\nend;\n", stmt, tail),
+    }
+}
+
 /// the `i`-th token sequence in the enumeration of all sequences over SOUP (length 1, then 2, then 3, ...)
 pub fn soup_enum(mut i: usize) -> String {
     let n = SOUP.len();
